@@ -177,9 +177,37 @@ func (tdsChan *Channel) Close() error {
 		// TODO process ack packet
 	}
 
+	// The goroutine reading from the connection holds the read lock
+	// while it passes packages and errors into the channels. If one of
+	// them is full - e.g. because a response was abandoned - it blocks
+	// until something is consumed and the write lock could never be
+	// acquired. Consume both channels until the lock is held.
+	locked := make(chan struct{})
+	drained := make(chan struct{})
+	var stillQueued []error
+	go func() {
+		defer close(drained)
+		for {
+			select {
+			case pkg := <-tdsChan.packageCh:
+				stillQueued = append(stillQueued, fmt.Errorf("package still queued: %v", pkg))
+			case err := <-tdsChan.errCh:
+				stillQueued = append(stillQueued, fmt.Errorf("error still queued: %w", err))
+			case <-locked:
+				return
+			}
+		}
+	}()
+
 	// Lock the channel and store the closed indicator.
 	tdsChan.Lock()
+	close(locked)
+	<-drained
 	defer tdsChan.Unlock()
+
+	for _, err := range stillQueued {
+		me = multierror.Append(me, err)
+	}
 
 	if tdsChan.closed {
 		// Closed concurrently
